@@ -66,6 +66,8 @@ func main() {
 		gates(a, res)
 	case "errpath":
 		errpath(a, res)
+	case "stoplat":
+		stoplat(a, res)
 	default:
 		hx.Fatal("unknown subcommand %s", cmd)
 	}
